@@ -38,7 +38,9 @@ def main():
             shutil.copy(patch, os.path.join(dst, "patch.diff"))
             for nm in (f"demo{i}.py", f"equiv{i}.py"):
                 if os.path.exists(os.path.join(d, nm)):
-                    shutil.copy(os.path.join(d, nm), os.path.join(dst, "demo.py" if nm.startswith("demo") else "equiv.py"))
+                    # (the authors hard-coded their scratch worktree; "." = run it from the root of the tree under test)
+                    txt = open(os.path.join(d, nm)).read().replace(f"/tmp/wt_{prop}", ".")
+                    open(os.path.join(dst, "demo.py" if nm.startswith("demo") else "equiv.py"), "w").write(txt)
             # one of the counterexample files the check wrote for this change (solver model, native replay), trimmed
             rdir = os.path.join(VERIF, "replays", f"scratch-se_{prop}_{i}")
             if os.path.isdir(rdir):
@@ -76,6 +78,9 @@ def main():
             exits = ",".join(f"{c['property']}:exit{c['exit']}" for c in checks)
             rows.append((sid, kind, "kept", ",".join(caught) or "-", exits))
     with open(os.path.join(OUT, "INDEX.md"), "w") as f:
+        f.write("Seeded changes (DESIGN.md section 11).  To try one by hand:  `git -C /repo apply /verif/seeded/<id>/patch.diff && (cd /verif && ./check <P>);\n"
+                "git -C /repo checkout -- .`   The author's demonstration: `cd /repo && /venv/bin/python /verif/seeded/<id>/demo.py` (exit 0 on the clean tree, non-zero with the patch);\n"
+                "equivalence scripts of the behaviour-preserving ones: `... equiv.py record` on the clean tree, `... equiv.py compare` with the patch (they write OUT/ref*.pkl: `mkdir -p OUT` first).\n\n")
         f.write("| id | kind | status | reported by (exit 1) | checks run |\n|---|---|---|---|---|\n")
         for r in rows:
             f.write("| " + " | ".join(r) + " |\n")
